@@ -523,24 +523,34 @@ func init() {
 	}
 }
 
+// giveUpScenario: two clients of one key sync at the same moment and one caller may give up in the middle of its call
+// (context cancelled while its handler works); afterwards both sync again until quiet.
+func giveUpScenario() e2sched {
+	inc := func(r int) pact { return pact{Op: "inc", R: r, P: 1, T: "k1|"} }
+	return e2sched{E2: e2p{Clients: 2, Type: "counter", Prefix: "joined", Tolerant: true}, Setup: []pact{inc(0), inc(1)},
+		Conc: []pact{{Op: "sync", R: 0}, {Op: "sync", R: 1}}, AtEnd: []string{"log", "converge", "applied", "issued", "reference", "snapshots"}, GiveUps: 1}
+}
+
 func init() {
 	plans["C16"] = func(tier string) Plan {
 		p := Plan{ID: "C16", Level: "exploration",
 			Rule: "from a base scenario (two clients subscribed to two keys, two unpushed operations) every single mutation of a valid PushPullMessage is sent to the real service: unknown / empty / foreign " +
 				"client, collection, datatype id and key, every option-bit combination 0x01..0x7f, checkpoints zero / ahead / swapped / missing, operation lists with gaps, repeats, reordering, foreign " +
 				"client ids, stale sequence numbers, wrong operation type, garbage body, changed type and era, no pack, two packs of one key (quick: single mutations plus 11 base mutations combined with every other one; thorough: ALL ordered pairs for the counter, base pairs for list and document); oracle: the call returns " +
-				"within 60 virtual seconds, the worker survives, a refusal leaves the dump unchanged, the log invariants hold, an SDK client applying the response reports errors through its handler " +
-				"without panicking, and afterwards both correct clients continue and converge; distinct non-trivial = distinct (mutation, outcome class)",
-			Assume: []string{assumeE2, assumeInstr}}
+				"within 60 virtual seconds, the worker survives (no goroutine of the server stays blocked for ever), a refusal leaves the dump unchanged, the log invariants hold, an SDK client applying the response reports errors through its handler " +
+				"without panicking, and afterwards both correct clients continue and converge; distinct non-trivial = distinct (mutation, outcome class); (caller-gives-up run) schedule search in which a caller cancels its context at any decision point while its call is served: the call ends, nothing stays blocked, the next requests for the key are served and everything converges",
+			Assume: []string{assumeE2, assumeInstr, assumeSched}}
 		if tier == "quick" {
 			p.BudgetS = 480
-			p.Runs = []Run{{Name: "mutation-base-pairs-counter", Check: "C16", Kind: "mutreq", Cases: true, Params: map[string]interface{}{"type": "counter", "pairs": "base"}, Shards: 16}}
+			p.Runs = []Run{{Name: "mutation-base-pairs-counter", Check: "C16", Kind: "mutreq", Cases: true, Params: map[string]interface{}{"type": "counter", "pairs": "base"}, Shards: 16},
+				schedRun("caller-gives-up-then-next-requests-b1", 1, giveUpScenario(), 0)}
 		} else {
 			p.BudgetS = 3300
 			p.Runs = []Run{
 				{Name: "mutation-all-pairs-counter", Check: "C16", Kind: "mutreq", Cases: true, Params: map[string]interface{}{"type": "counter", "pairs": "all"}, Shards: 16},
 				{Name: "mutation-base-pairs-list", Check: "C16", Kind: "mutreq", Cases: true, Params: map[string]interface{}{"type": "list", "pairs": "base"}, Shards: 16},
 				{Name: "mutation-base-pairs-doc", Check: "C16", Kind: "mutreq", Cases: true, Params: map[string]interface{}{"type": "doc", "pairs": "base"}, Shards: 16},
+				schedRun("caller-gives-up-then-next-requests-b2", 2, giveUpScenario(), 0),
 			}
 		}
 		return p
@@ -652,6 +662,7 @@ type e2sched struct {
 	AtEnd   []string `json:"at_end"`
 	NoClose bool     `json:"no_close,omitempty"`
 	Policy  *spolicy `json:"policy,omitempty"`
+	GiveUps int      `json:"give_ups,omitempty"`
 }
 
 // spolicy mirrors w.schedPolicy.
@@ -692,12 +703,18 @@ func init() {
 		same3 := e2sched{E2: e2p{Clients: 3, Type: "counter", Prefix: "joined", Tolerant: true}, Setup: []pact{inc(0), inc(1), inc(2)}, Conc: []pact{{Op: "sync", R: 0}, {Op: "sync", R: 1}, {Op: "sync", R: 2}}, AtEnd: end}
 		diff2 := e2sched{E2: e2p{Clients: 2, Type: "counter", Keys: []string{"k1", "k2"}, Prefix: "joined", Exchange: "pack", Tolerant: true}, Setup: []pact{inc(0), {Op: "inc", R: 1, P: 1, T: "k2|"}}, Conc: []pact{{Op: "sync", R: 0}, {Op: "sync", R: 1}}, AtEnd: end}
 		fresh := e2sched{E2: e2p{Clients: 2, Type: "counter", Tolerant: true}, Conc: []pact{{Op: "opensync", R: 0, T: "k1", K: "soc"}, {Op: "opensync", R: 1, T: "k1", K: "soc"}}, AtEnd: append([]string{"onedoc"}, end...)}
+		// a caller gives up in the middle of its call (its context is cancelled while the handler works): one such event
+		// per execution, at every decision point at which a call is being served
+		giveup2 := same2
+		giveup2.GiveUps = 1
+		giveupFresh := fresh
+		giveupFresh.GiveUps = 1
 		if tier == "quick" {
 			p.BudgetS = 600
-			p.Runs = []Run{schedRun("same-key-2-b3", 3, same2, 0), schedRun("different-keys-2-b2", 2, diff2, 0), schedRun("fresh-key-2-b3", 3, fresh, 0), schedRun("same-key-3-b2", 2, same3, 0)}
+			p.Runs = []Run{schedRun("same-key-2-caller-gives-up-b2", 2, giveup2, 0), schedRun("fresh-key-2-caller-gives-up-b2", 2, giveupFresh, 0), schedRun("same-key-2-b3", 3, same2, 0), schedRun("different-keys-2-b2", 2, diff2, 0), schedRun("fresh-key-2-b3", 3, fresh, 0), schedRun("same-key-3-b2", 2, same3, 0)}
 		} else {
 			p.BudgetS = 3400
-			p.Runs = []Run{schedRun("same-key-2-b4", 4, same2, 0), schedRun("different-keys-2-b3", 3, diff2, 0), schedRun("fresh-key-2-b4", 4, fresh, 0), schedRun("same-key-3-b3", 3, same3, 0)}
+			p.Runs = []Run{schedRun("same-key-2-caller-gives-up-b3", 3, giveup2, 0), schedRun("fresh-key-2-caller-gives-up-b3", 3, giveupFresh, 0), schedRun("same-key-2-b4", 4, same2, 0), schedRun("different-keys-2-b3", 3, diff2, 0), schedRun("fresh-key-2-b4", 4, fresh, 0), schedRun("same-key-3-b3", 3, same3, 0)}
 		}
 		return p
 	}
